@@ -7,13 +7,13 @@ CONSTANTS
   ImplSubs <- mcSubs
   ImplTopics <- mcTopics
   MsgKinds <- mcMsgKinds
-  BatchMax = 1
+  BatchMax = 2
   MaxMsgs = 3
-  MaxTime = 5
-  TickDs = {1, 2}
+  MaxTime = 0
+  TickDs = {2, 5}
   PullMaxes = {3}
   Ops <- mcOps
-  AttBound = 2
+  AttBound = 1
   ChainAnyKey = FALSE
 ACTION_CONSTRAINT ReportCex
 CONSTRAINT Bounded
